@@ -52,8 +52,11 @@ type Unit struct {
 	closures map[string]*ClosureV
 	specErrs []string
 	measure0 *Term
+	retVals []Value // merged results of the top-level function (for replay)
 	relevant map[string]bool // nil = every family; else families worth copying in struct appends
 	usedStructAppend bool
+	inAppendCopy int
+	touched map[string]bool
 	curVisited string
 }
 
